@@ -141,14 +141,12 @@ class World:
 
     def uid(self, c):
         u = np.asarray(c.U_full) + 0.0
-        b = (u.shape, u.tobytes())
+        # the identifier stands for (U_full, number of circuit modes): a circuit with 2 modes and one loss mode and a
+        # 3-mode circuit with the same 3x3 matrix are different configurations (N19)
+        b = (u.shape, u.tobytes(), int(c.n_modes))
         if b not in self.uids:
             self.uids[b] = len(self.uids)
-        i = self.uids[b]
-        # assumption of the model instance: circuits with equal U_full have equally many (non-loss) modes
-        if self.umodes.setdefault(i, c.n_modes) != c.n_modes:
-            raise AssertionError("two circuits of one history have equal U_full but different n_modes")
-        return i
+        return self.uids[b]
 
     def circ_abs(self, spec, params):
         """(U id, input heralds, output heralds, input_modes) of a fresh build."""
@@ -1255,6 +1253,37 @@ def gen_detector_case(rng):
     return dict(kind="sampler", params={"r0": 0.5, "t0": 0.4}, circuits=[spec], init=init, steps=steps)
 
 
+def gen_split_case(rng, quick):
+    """two circuits with the SAME U_full and a different split into circuit and loss modes (k modes + a loss element of
+    loss 0 = identity of dimension k+1 = an empty circuit on k+1 modes): re-pointing a used object from one to the other
+    must give what a fresh object gives - an error while the input does not fit, the new distribution once it does"""
+    k = rng.randint(1, 3)
+    a = {"n": k, "base": None, "ops": [["loss", rng.randrange(k), 0]]}
+    b = {"n": k + 1, "base": None, "ops": []}
+    first, second = (0, 1) if rng.random() < 0.5 else (1, 0)
+    circuits = [a, b]
+    m1 = circuits[first]["n"]
+    m2 = circuits[second]["n"]
+    inp1 = gen_input(rng, m1)
+    inp2 = gen_input(rng, m2)
+
+    def observe():
+        u = rng.random()
+        if u < 0.5:
+            return {"op": "read"}
+        if u < 0.8:
+            return {"op": "sample", "seed": rng.randint(0, 10**6)}
+        return {"op": "sample_n", "which": "outputs", "N": rng.randint(5, 20), "seed": rng.randint(0, 10**6)}
+
+    steps = [observe(), {"op": "circuit", "c": second}, observe(), observe(), {"op": "input", "s": inp2}, observe(),
+             {"op": "circuit", "c": first}, observe(), {"op": "input", "s": inp1}, observe()]
+    if quick:
+        init = dict(c=first, input=inp1, pc=True, ps=None)
+    else:
+        init = dict(c=first, input=inp1, src=[1, 1, 1, 0], backend=rng.choice(["permanent", "slos"]), det=[1, True])
+    return dict(kind="quick" if quick else "sampler", params={"r0": 0.5, "t0": 0.4}, circuits=circuits, init=init, steps=steps)
+
+
 def gen_analyzer_case(rng, tier):
     n = rng.randint(2, 3)
     lossy = rng.random() < 0.3
@@ -1361,8 +1390,8 @@ class C11:
                "bytes, heralds sorted by mode, source fields x 10^6, post-selection -> (object number, rule-set id); "
                "computed from fresh builds of the circuit description, never from the long-lived object",
                "reference values are produced by freshly created lightworks objects (the property is relational)"]
-    ASSUMPTIONS = ["circuits of one history with equal U_full have equally many non-loss modes (checked per case; "
-                   "false only for a Unitary built from the U_full of a lossy circuit)",
+    ASSUMPTIONS = ["the model's circuit identifier stands for the pair (U_full, number of circuit modes) (N19: circuits with equal "
+                   "U_full and a different split into circuit and loss modes are different configurations)",
                    "lightworks' global settings (sampler_probability_threshold) are not changed during a history",
                    "the list a State was constructed from is not edited afterwards (C18 aliasing, outside the API)",
                    "post-selection given as a python function is a pure function of the state"]
@@ -1387,6 +1416,8 @@ class C11:
             r = k % 5
             if k % 10 == 1:
                 cases.append(gen_detector_case(rng))
+            elif k % 25 == 7:
+                cases.append(gen_split_case(rng, k % 2 == 1))
             elif r in (0, 1):
                 cases.append(gen_toggle_case(rng, False) if k % 3 == 0 else gen_sampler_case(rng, False, tier))
             elif r in (2, 3):
